@@ -53,6 +53,13 @@ CLAIMED.update({
             "7 C08"),
 })
 
+CLAIMED.update({
+    "C09": ("Coq proof (insertion sort is a canonical permutation under a total order; index_of on duplicate-free lists is a bijection; identifier legality and alias decoding) + extracted-model correspondence (species order, aliases, macro and constant lines) + identifier oracle across artefacts",
+            "Theorems in Props/C09.v: the ordered species list is a duplicate-free rearrangement of the species set, sorted by (connected species, name) and independent of the set's iteration order; the index macros are a bijection onto 0..N-1; every identifier is legal when the basename is alphanumeric (symbol table regenerated from /repo); the identifier determines phase, normalised basename and charge under a decidable side condition. Tied to Network.species, Species.alias, naunet_macros.h, constant_indexes.py, the configuration summary (API and `naunet render`) and the Enzo patch tables.",
+            "Species identity classes come from the implementation's __eq__; four known findings (label characters in identifiers, GRAIN/GRAIN0 hash, surface-group alias collision, labelled atoms) are proved as *_refuted theorems and replayed on every run; tomlkit and the patch renderer are exercised only.",
+            "7 C09"),
+})
+
 NOT_YET = {}
 
 
